@@ -64,7 +64,7 @@ PROPS = {
     ),
     'C08': dict(
         level='proof',
-        projections=[dict(name='mercagg', n_quick=1600, n_thorough=30000), dict(name='mercreport', spec_index=4, n_quick=420, n_thorough=3000)],
+        projections=[dict(name='mercagg', n_quick=1600, n_thorough=30000), dict(name='mercreport', spec_index=4, n_quick=250, n_thorough=3000)],
         rule='mercagg: every vote table / order type of n<=4 (thorough 5) observations over {1,2,3,invalid} for each of the nine '
              'consensus functions (f=1), then structured random cases f in 1..3, 2f+1..3f+1 observations, honest values near a base, '
              'faulty values 0, +-2^k, -1.., invalid flags, forked/invented blocks, deprecated current-block fields; every case also run on a '
@@ -247,7 +247,7 @@ MERC_RULE = ("mercreport: threaded histories (2..10 rounds) of MercuryPlugin.Rep
              "timestamps near 2^32; codec modes ok/empty/too-long/error; previous report threaded / absent / unreadable / at 2^32-1; "
              "directed equal-count and unequal-split vote tables; each round re-evaluated on fresh plugins. Distinct by SHA-1.")
 PROPS['C07'] = dict(
-    level='proof', projections=[dict(name='mercreport', spec_index=1, n_quick=420, n_thorough=3000)], rule=MERC_RULE,
+    level='proof', projections=[dict(name='mercreport', spec_index=1, n_quick=250, n_thorough=3000)], rule=MERC_RULE,
     explanation="Theorems C07_* prove for all configurations, previous reports and observation lists that whenever the modelled Report returns "
                 "shouldReport=true the fields satisfy every invariant of the property (price ranges, v3 bid<=mid<=ask, fees in [0, MaxInt192], "
                 "validFrom <= ts <= expiresAt = ts + window <= 2^32-1, v1 block range and 32-byte hash, v4 status with f+1 votes, report "
@@ -260,7 +260,7 @@ PROPS['C07'] = dict(
                "observation messages is taken at message level. Axioms: none.",
 )
 PROPS['C09'] = dict(
-    level='proof', projections=[dict(name='mercreport', spec_index=2, n_quick=420, n_thorough=3000)], rule=MERC_RULE,
+    level='proof', projections=[dict(name='mercreport', spec_index=2, n_quick=250, n_thorough=3000)], rule=MERC_RULE,
     explanation="Theorems C09_* prove: with a previous report the start is exactly one past its end without wrap (B2) and not after the new "
                 "end; over any threaded history the windows of consecutive emitted reports are adjacent and disjoint; declining carries no "
                 "fields. The bootstrap start (one past the greatest value with f+1 votes, or the timestamp when negative; overflow repaired, "
@@ -271,7 +271,7 @@ PROPS['C09'] = dict(
                "testing with a faithful recording codec.",
     level_note="Trusted: Coq kernel + vm_compute; hand-written model; external report codec represented by what the plugin uses of it. Axioms: none.",
 )
-PROPS['C01']['projections'].append(dict(name='mercreport', spec_index=3, n_quick=420, n_thorough=3000))
+PROPS['C01']['projections'].append(dict(name='mercreport', spec_index=3, n_quick=250, n_thorough=3000))
 
 BRANCH_NAMES['evmcodec'] = ['cases', 'verified', 'ok', 'err', 'panic']
 EVMCODEC_RULE = ("evmcodec: the three codecs in equal shares; channel options produced as JSON text (feed ids incl. zero, windows 0 / 2^31 / 2^32-1 / "
